@@ -27,17 +27,17 @@ INTERNAL = ["RunCb", "Finish"]
 
 def run(rep, work, tier, seed):
     if tier == "quick":
-        mc = dict(NTasks=3, N=4, MaxOps=7, MaxRec=0, MaxT=1, MTypes=["Cat"], Kinds=["s", "a"], Prep=False, Bug="none")
-        conf = dict(NTasks=2, N=3, MaxOps=6, MaxRec=0, MaxT=1, MTypes=["Cat"], Kinds=["s", "a"], Prep=False, Bug="none")
+        mc = dict(NTasks=3, N=4, MaxOps=7, MaxRec=0, MaxT=1, MTypes=["Cat"], Kinds=["s", "a"], Prep=False, Threads=False, Bug="none")
+        conf = dict(NTasks=2, N=3, MaxOps=6, MaxRec=0, MaxT=1, MTypes=["Cat"], Kinds=["s", "a"], Prep=False, Threads=False, Bug="none")
     else:
-        mc = dict(NTasks=3, N=5, MaxOps=8, MaxRec=0, MaxT=1, MTypes=["Cat"], Kinds=["s", "a"], Prep=False, Bug="none")
-        conf = dict(NTasks=3, N=4, MaxOps=7, MaxRec=0, MaxT=1, MTypes=["Cat"], Kinds=["s", "a"], Prep=False, Bug="none")
+        mc = dict(NTasks=3, N=5, MaxOps=8, MaxRec=0, MaxT=1, MTypes=["Cat"], Kinds=["s", "a"], Prep=False, Threads=False, Bug="none")
+        conf = dict(NTasks=3, N=4, MaxOps=7, MaxRec=0, MaxT=1, MTypes=["Cat"], Kinds=["s", "a"], Prep=False, Threads=False, Bug="none")
     rep.extra["constants"] = dict(model=mc, conformance=conf)
     leg_m(rep, work, SPEC, f"mc_{tier}",
           cfg_text(mc, spec="Spec", invariants=INVS, properties=PROPS + ["EventuallyCalled"]),
           expect_actions=["Open", "Close", "Finish", "RunCb", "Start", "End", "Tick", "Drain"], timeout=3000)
     if tier == "thorough":
-        small = dict(NTasks=2, N=3, MaxOps=6, MaxRec=0, MaxT=1, MTypes=["Cat"], Kinds=["s", "a"], Prep=False)
+        small = dict(NTasks=2, N=3, MaxOps=6, MaxRec=0, MaxT=1, MTypes=["Cat"], Kinds=["s", "a"], Prep=False, Threads=False)
         leg_mutant(rep, work, SPEC, "mutant_late_child", cfg_text(dict(small, Bug="late_child"), invariants=INVS),
                    ["CbAfterSubtree", "ExitNeverFails", "CbAtMostOnce", "CompletionIffSubtreeLeft"])
         leg_mutant(rep, work, SPEC, "mutant_metrics_before_group",
@@ -48,16 +48,21 @@ def run(rep, work, tier, seed):
           internal=INTERNAL, world=True)
     # three tasks sharing one inherited scope (children in plain tasks that outlive it, opened while an earlier
     # child is still open): needs 7-8 operations, explored on sync scopes only to keep the graph small
-    wide = dict(NTasks=3, N=3, MaxOps=7 if tier == "quick" else 8, MaxRec=0, MaxT=0, MTypes=["Cat"], Kinds=["s"], Prep=False, Bug="none")
+    wide = dict(NTasks=3, N=3, MaxOps=7 if tier == "quick" else 8, MaxRec=0, MaxT=0, MTypes=["Cat"], Kinds=["s"], Prep=False, Threads=False, Bug="none")
     leg_r(rep, work, SPEC, f"conf_wide_{tier}", cfg_text(wide, invariants=INVS), lambda: MetricsDriver(["Cat"]),
           internal=INTERNAL, world=True)
     # scope objects made in one place and entered in another - by a task that inherited nothing from the maker - with a
     # garbage collection in between: the scope the object is registered under completes exactly when it has been left too
     madec = dict(NTasks=2, N=3, MaxOps=6 if tier == "quick" else 7, MaxRec=0, MaxT=0, MTypes=["Cat"],
-                 Kinds=["s", "a"], Prep=True, Bug="none")
+                 Kinds=["s", "a"], Prep=True, Threads=False, Bug="none")
     leg_m(rep, work, SPEC, f"made_mc_{tier}", cfg_text(madec, spec="Spec", invariants=INVS, properties=PROPS + ["EventuallyCalled"]),
           expect_actions=["Make", "EnterMade", "Close", "RunCb"], timeout=3000)
     leg_r(rep, work, SPEC, f"made_conf_{tier}", cfg_text(madec, invariants=INVS), lambda: MetricsDriver(["Cat"]),
+          internal=INTERNAL, world=True)
+    # code running off the event loop (a worker thread with a copy of the task's context) tries to open a scope: refused or
+    # not, the scopes of the task complete as they would have
+    thr = dict(NTasks=2, N=2, MaxOps=5, MaxRec=0, MaxT=0, MTypes=["Cat"], Kinds=["s", "a"], Prep=False, Threads=True, Bug="none")
+    leg_r(rep, work, SPEC, f"threads_conf_{tier}", cfg_text(thr, invariants=INVS), lambda: MetricsDriver(["Cat"]),
           internal=INTERNAL, world=True)
     # leg T: random programs over 4 tasks / 8 scopes recorded from the real library, validated by a trace module
     # generated from Metrics.tla (callbacks run as silent internal steps between the logged events)
